@@ -785,6 +785,85 @@ Definition c09_cross_violations (cases : list cross_case) : list Z :=
     negb (zlist_eqb strl strk)
     || negb (forallb (fun b => let '(r, mods, ol, ok) := b in (r =? 0) || Bool.eqb ol ok) bs)) cases.
 
+(* ================= the description (String()) of a chord under every encoding ================= *)
+(* Besides the legacy bytes and the kitty reports, a terminal in xterm's modifyOtherKeys mode reports a
+   key as CSI 27 ; m ; code ~ (formatOtherKeys 0) or CSI code ; m u (formatOtherKeys 1), where code is
+   the code point the key sends on its own: the character, 9 (Tab), 13 (Enter), 27 (Esc), and for
+   Backspace either DEL (127) or BS (8), depending on the terminal (xterm's backarrowKey).  [other_encs]
+   lists these reports (with Num Lock / Caps Lock bits, an explicit press event, an absent modifier
+   field when there is nothing to report); [all_encs] is every encoding of the chord: legacy, kitty and
+   these.  The chords: a printable ASCII character as typed without Shift, Tab, Enter, Esc, Backspace,
+   each with every one of the 64 sets of Shift/Alt/Ctrl/Super/Hyper/Meta ([desc_chord]).
+   The description of the chord is the String() of the Key value a program would write for it
+   ([chord_key]: Key{Keycode: code, Modifiers: mods}). *)
+Definition special4 (k : Z) : bool := (k =? KeyTab) || (k =? KeyEnter) || (k =? KeyEsc) || (k =? KeyBackspace).
+Definition report_codes (k : Z) : list Z := if k =? KeyBackspace then [127; 8] else [k].
+
+Definition other_encs (c : chord) : list kseq :=
+  let k := ch_code c in
+  let m := ch_mods c in
+  if printable_nonupper k || special4 k then
+    flat_map (fun n => flat_map (fun l =>
+        SCSI [] [[27]; [m + l + 1]; [n]] 126
+        :: flat_map (fun ev => kitty_seq n 117 [] m l ev None) bools)
+      (if special4 k then [0; 64; 128; 192] else [0; 128])) (report_codes k)
+  else [].
+
+Definition all_encs (c : chord) : list kseq := legacy_encs c ++ kitty_encs c ++ other_encs c.
+
+Definition desc_chord (c : chord) : bool :=
+  (printable_nonupper (ch_code c) || special4 (ch_code c)) && in_range (ch_mods c) 0 63.
+
+Definition desc_keys : list Z := filter printable_nonupper (zrange 32 95) ++ [KeyTab; KeyEnter; KeyEsc; KeyBackspace].
+Definition desc_chords : list chord := flat_map (fun k => map (mkChord k) (zrange 0 64)) desc_keys.
+
+Definition chord_key (c : chord) : key := mkKey [] (ch_code c) 0 0 (ch_mods c) 0.
+
+(* the recorded finding esc-upper concerns the legacy ESC <upper-case letter> encoding only *)
+Definition guard_esc_upper_seq (c : chord) (s : kseq) : bool :=
+  guard_esc_upper c && match s with SESC _ _ => true | _ => false end.
+
+(* two key events that String() must not distinguish: the same key (BS and DEL are both Backspace), the
+   same Shift/Alt/Ctrl/Super/Hyper/Meta prefix, and the same Caps Lock state where String() looks at it
+   (a key that is printed as a rune) *)
+Definition desc_code (c : Z) : Z := if c =? 8 then KeyBackspace else c.
+Definition caps_blind (c : Z) : bool :=
+  (MaxRune <? c) || (c <? 32) || (c =? KeySpace) || (c =? KeyBackspace).
+Definition kdesc_equivb (a b : key) : bool :=
+  (desc_code (k_code a) =? desc_code (k_code b)) && zlist_eqb (mods_prefix a) (mods_prefix b) &&
+  (Bool.eqb (has_bit (k_mods a) ModCapsLock) (has_bit (k_mods b) ModCapsLock)
+   || (caps_blind (k_code a) && caps_blind (k_code b))).
+
+Definition desc_enc_ok (c : chord) (s : kseq) : bool :=
+  seq_dom_ok s && (guard_esc_upper_seq c s || kdesc_equivb (decode_key ascii_uni s) (chord_key c)).
+Definition desc_chord_ok (c : chord) : bool := forallb (desc_enc_ok c) (all_encs c).
+
+(* the property on one observation: the String() of the key decoded from either encoding is the
+   String() of the chord's own Key value, hence the two encodings are described identically *)
+Definition desc_obs_ok (c : chord) (s1 s2 : kseq) (strc str1 str2 : list Z) : bool :=
+  (guard_esc_upper_seq c s1 || zlist_eqb str1 strc) &&
+  (guard_esc_upper_seq c s2 || zlist_eqb str2 strc) &&
+  (guard_esc_upper_seq c s1 || guard_esc_upper_seq c s2 || zlist_eqb str1 str2).
+
+(* desc stream: (chord, two of its encodings, String() of the chord's own Key value, String() of the
+   two decoded keys) *)
+Definition desc_case := (chord * kseq * kseq * list Z * list Z * list Z)%type.
+
+Definition c09_desc_mismatches (cases : list desc_case) : list Z :=
+  bad_indices (fun cs =>
+    let '(c, s1, s2, strc, str1, str2) := cs in
+    negb (desc_chord c)
+    || negb (existsb (kseq_eqb s1) (all_encs c)) || negb (existsb (kseq_eqb s2) (all_encs c))
+    || negb (seq_dom_ok s1 && seq_dom_ok s2)
+    || negb (zlist_eqb (key_string ascii_uni (chord_key c)) strc)
+    || negb (zlist_eqb (key_string ascii_uni (decode_key ascii_uni s1)) str1)
+    || negb (zlist_eqb (key_string ascii_uni (decode_key ascii_uni s2)) str2)) cases.
+
+Definition c09_desc_violations (cases : list desc_case) : list Z :=
+  bad_indices (fun cs =>
+    let '(c, s1, s2, strc, str1, str2) := cs in
+    negb (desc_obs_ok c s1 s2 strc str1 str2)) cases.
+
 (* pipeline stream: bytes were written to the fake console of a real Vaxis; (table, the sequence the
    ANSI parser (property C02) produces for those bytes, inside a bracketed paste or not, the Key read
    from Vaxis.Events()) *)
